@@ -52,5 +52,7 @@ def run(rep, tier, seed):
     rep.level = "exploration"
     rep.assume("A1", "A2", "A4", "A5", "A6", "A8")
     D.run_contracts(rep, "C13", O.BOUND_CONTRACTS, tier)
+    from contracts import enumerators as EN
+    D.run_contracts(rep, "C13", EN.ALL, tier)
     t3(rep, tier, seed)
     D.link_falsifier(rep)
